@@ -36,13 +36,20 @@ theorem put_adds_one (fs : FS) (infoC filesC src : CPath) (base content : Bytes)
     bag fs infoC name = none ∧ bag s'.fs infoC name = some (.file content 0o600 0) ∧
     ∀ n, n ≠ name → bag s'.fs infoC n = bag fs infoC n := Proofs.C09.put_adds_one fs infoC filesC src base content st st' h name s' hr
 
-/-- … and leaves the bag of every other directory alone. -/
-theorem put_other_bags (fs : FS) (infoC filesC src other : CPath) (base content : Bytes) (st st' : PutSt)
+/-- … and leaves the bag of every other directory alone — every directory other than `info/` itself,
+    the directory the entry was taken from (`parent src`: it lost the entry) and `files/` (it gained
+    the payload).  The statement without the last two hypotheses is FALSE
+    (`Proofs.C09.put_other_bags_counterexample`: trashing `/a` into `/t`, `other := /`, `n := a` —
+    `h1`, `h2`, `h3` hold, yet the bag of `/` lost `a`; likewise `other := /t/files` gained `a`). -/
+theorem put_other_bags_partial (fs : FS) (infoC filesC src other : CPath) (base content : Bytes) (st st' : PutSt)
     (h : Setting fs infoC filesC src) (name : Bytes) (s' : RunState)
     (hr : run noFaults (putCore infoC filesC base content (fun _ => .ok src) st) { fs := fs } = ((.ok name, st'), s'))
     (ho : other ≠ infoC) (h1 : ¬ FS.under src other = true) (h2 : ¬ FS.under (filesC ++ [stemOf name]) other = true)
-    (h3 : ∀ n, other ++ [n] ≠ FS.parent src ∧ other ++ [n] ≠ filesC ∧ other ++ [n] ≠ infoC) :
-    ∀ n, bag s'.fs other n = bag fs other n := Proofs.C09.put_other_bags fs infoC filesC src other base content st st' h name s' hr ho h1 h2 h3
+    (h3 : ∀ n, other ++ [n] ≠ FS.parent src ∧ other ++ [n] ≠ filesC ∧ other ++ [n] ≠ infoC)
+    (hnotParentOfSrc : other ≠ FS.parent src) (hnotFiles : other ≠ filesC) :
+    ∀ n, bag s'.fs other n = bag fs other n :=
+  Proofs.C09.put_other_bags_partial fs infoC filesC src other base content st st' h name s' hr ho h1 h2 h3
+    hnotParentOfSrc hnotFiles
 
 /-- purging (trash-rm, trash-empty) removes exactly the selected element, fault-free, when the info
     file is a regular file -/
